@@ -510,6 +510,24 @@ def lifecycle():
     bb = fn_body(pm, "process_inproc_binding_request_event")
     emit_nat("inprocRefusalKeepsBinder", 1 if re.search(
         r"validate_socket_compatibility\([^)]*\)\s*\{.{0,400}?reply_tx\.send\(Err\(e\)\);\s*return Ok\(\(\)\);", bb, re.S) else 0)
+    # HWM / timeouts: capacities of the two bounded queues of a connection, and what SNDTIMEO -1 means on a full one
+    cp = strip_comments(src("core/src/socket/core/command_processor.rs"))
+    emit_nat("pipeCapacityIsSndhwm", 1 if re.search(r"bounded_async::<FrameBatch>\(core_arc\.core_state\.read\(\)\.options\.sndhwm\.max\(1\)\)", cp) else 0)
+    pl = strip_comments(src("core/src/socket/pull_socket.rs"))
+    emit_nat("ingressCapacityIsRcvhwm", 1 if re.search(r"opts\.options\.rcvhwm\.max\(1\)", pl) and "register_pipe(pipe_read_id, rcvhwm" in pl else 0)
+    caps = 0
+    for rel in ("core/src/sessionx/iface.rs", "core/src/transport/inproc/connection.rs", "core/src/io_uring_backend/zmtp_handler.rs"):
+        caps += len(re.findall(r"sndtimeo\s*\.unwrap_or\(Duration::from_secs\(\d+\)\)", strip_comments(src(rel))))
+    emit_nat("sndtimeoNoneCappedSites", caps)
+    ifc = strip_comments(src("core/src/sessionx/iface.rs"))
+    emit_nat("sndtimeoZeroIsTrySend", len(re.findall(r"TrySendError::Full\(\w+\)\) if self\.sndtimeo == Some\(Duration::ZERO\)", ifc)))
+    ai2 = strip_comments(src("core/src/socket/patterns/anonymous_ingress.rs"))
+    emit_nat("rcvtimeoZeroIsTryPop", len(re.findall(r"Some\(d\) if d\.is_zero\(\) => self\.queue\.try_pop\(\)\.ok_or\(ZmqError::ResourceLimitReached\)\?", ai2)))
+    emit_nat("rcvtimeoPositiveIsTimeout", len(re.findall(r"Some\(d\) => tokio::time::timeout\(d, self\.queue\.pop\(\)\)\s*\.await\s*\.map_err\(\|_\| ZmqError::Timeout\)\?\?", ai2)))
+    emit_nat("rcvtimeoNoneWaits", len(re.findall(r"None => self\.queue\.pop\(\)\.await\?", ai2)))
+    dl = strip_comments(src("core/src/socket/dealer_socket.rs"))
+    emit_nat("dealerQueuesOnlyReturnedMessages", 1 if re.search(r"Err\(\(returned, ZmqError::ResourceLimitReached\)\) => \{\s*self\.queue_message_or_error", dl) and re.search(r"try_route_sync\(zmtp_frames_for_logical_message\)", dl) else 0)
+    emit_nat("dealerPendingBoundedBySndhwm", 1 if re.search(r"if queue_guard\.len\(\) < global_sndhwm \{", dl) else 0)
     # multipart stash: what happens to the unread frames of a message on deregister / recv_multipart
     ai = strip_comments(src("core/src/socket/patterns/anonymous_ingress.rs"))
     bd = fn_body("core/src/socket/patterns/anonymous_ingress.rs", "deregister_pipe")
